@@ -24,7 +24,7 @@ PLAN = {
     "thorough": {"shards": 16, "shard_timeout": 3600, "case_timeout": 40, "grammars": 12000, "max_case_timeouts": 160},
 }
 THRESHOLDS = {
-    "quick": {"api_calls_fingerprinted": 5000, "backtracking_events": 500, "failing_operations": 100, "infeasible_limit_probes": 50, "searches": 30, "repr:tree": 500, "repr:ge": 200, "repr:sge": 200, "repr:dsge": 200, "repr:stack": 50},
+    "quick": {"api_calls_fingerprinted": 5000, "backtracking_events": 500, "failing_operations": 100, "infeasible_limit_probes": 50, "searches": 30, "repr:tree": 500, "repr:ge": 200, "repr:sge": 200, "repr:dsge": 200, "repr:stack": 50, "grammars_with_unproductive_part": 40},
     "thorough": {"api_calls_fingerprinted": 100000, "backtracking_events": 10000, "failing_operations": 2000},
 }
 
@@ -181,6 +181,9 @@ def gen_cases(tier, seed):
     for desc in grammars.family(seed + 2, n // 4, "weighted", with_fixed=False):  # weight-aware paths, deep enough to matter
         for rk in ("tree", "ge", "stack"):
             yield {"kind": "gf", "desc": desc, "repr": rk, "decider": "progressive" if rk != "stack" else "own", "extra_depth": 4, "seed": rng.randrange(10**6), "nops": rng.randint(10, 24), "search": rng.choice(["gp", "rs", None])}
+    for desc in grammars.family(seed + 3, max(6, n // 8), "unproductive-part", with_fixed=False):  # Grammar.get_max_node_depth() is "infinite" here
+        for rk, dk in (("tree", "progressive"), ("ge", "progressive"), ("sge", "progressive"), ("tree", "maxdepth"), ("tree", "pigrow")):
+            yield {"kind": "gf", "desc": desc, "repr": rk, "decider": dk, "extra_depth": rng.choice([1, 2, 3]), "seed": rng.randrange(10**6), "nops": rng.randint(8, 16), "search": None, "unproductive_part": True}
     for i in range(n // 4):
         for rk, dk in workload.config_grid(rng):
             yield {"kind": "faulty", "k": 1 + i % 5, "repr": rk, "decider": dk, "extra_depth": rng.choice([0, 1, 2, 4]), "seed": rng.randrange(10**6), "nops": rng.randint(10, 24), "search": rng.choice(["gp", "rs", None])}
@@ -204,6 +207,8 @@ def run_case(case, rec):
         md = g.get_min_tree_depth()
         if md >= 1000000:
             return
+        if case.get("unproductive_part"):
+            rec.count("grammars_with_unproductive_part")
         del EVENTS[:]
         infeasible0 = grammars_infeasible_hits()
         faults0 = FAULTS["raised"]
